@@ -1,1 +1,570 @@
 // Suites that need access to items private to this module (feature ipa-verif, test builds only).
+//
+// ---- C05: sharded shuffle (sharded.rs / malicious.rs) ------------------------------------------
+// Request grammar:
+//   c05.e2e MODE BITS SHARDS DIST SEED ROWS
+//       MODE = sh (ShardedShuffle on the semi-honest sharded context) | mal (… on the malicious one)
+//       BITS = 32 | 64 | 112 (row type BA32/BA64/BA112), SHARDS = 1|2|3,
+//       DIST = rr (round robin) | rnd (Random<0>) | last (all rows on the last shard) | first
+//       ROWS = comma list of row values (decimal)
+//     -> `ok consistent=1 rows=<sorted reconstructed rows>` | `err …` | `timeout` | `panic:…`
+//   c05.tags BITS KEYS ROWS EXPECT
+//       KEYS = ⌈BITS/32⌉ revealed MAC keys (decimal Gf32Bit), ROWS = hex of serialized ShareAndTag rows,
+//       EXPECT = Σ keyᵢ·wordᵢ + tag per row, computed by the generator with plain Gf32Bit operations
+//     -> `ok <EXPECT>` iff compute_and_hash_tags(keys ‖ 1, rows) = hash(EXPECT), else `mismatch`
+//   c05.addtags BITS SEED KEY ROWS   MPC compute_and_add_tags on shares of ROWS with the MAC key vector KEY
+//     -> `ok <hex of reconstructed row‖tag>,…`
+//   c05.tamper BITS SHARDS SEED NROWS ATTACKER GATE DEST BYTE MASK NTH
+//       one helper (ATTACKER) xors MASK into byte BYTE (mod len) of the NTH-th non-empty stream chunk it sends
+//       to DEST on a step whose gate contains GATE, on whatever shard that chunk occurs
+//     -> `hit=<0|1> detected=<0|1>` (detected: some honest helper returned Err)
+use std::sync::{
+    Arc,
+    atomic::{AtomicUsize, Ordering},
+};
+
+use generic_array::GenericArray;
+
+use super::{
+    ShardedShuffle,
+    malicious::{compute_and_add_tags_for_verif as c05_compute_and_add_tags, c05_hash_tags},
+};
+use crate::{
+    ff::{
+        Field, Gf32Bit, Serializable, U128Conversions,
+        boolean_array::{BA32, BA64, BA96, BA112, BA144},
+    },
+    helpers::{Role, hashing::compute_possibly_empty_hash, in_memory_config::MaliciousHelper},
+    ipa_verif::proto::*,
+    protocol::{context::Context as _, ipa_prf::shuffle::step::ShardedShuffleStep},
+    secret_sharing::{SharedValue, replicated::{ReplicatedSecretSharing, semi_honest::AdditiveShare}},
+    test_fixture::{
+        Distribute, RandomInputDistribution, Reconstruct, RoundRobinInputDistribution, Runner,
+        TestWorld, TestWorldConfig, WithShards,
+    },
+};
+
+/// All rows on the last shard (every other shard starts empty).
+pub struct C05LastShard;
+impl Distribute for C05LastShard {
+    fn distribute<const SHARDS: usize, A>(input: Vec<A>) -> [Vec<A>; SHARDS] {
+        let mut r: [_; SHARDS] = std::array::from_fn(|_| Vec::new());
+        r[SHARDS - 1] = input;
+        r
+    }
+}
+
+/// All rows on the first shard.
+pub struct C05FirstShard;
+impl Distribute for C05FirstShard {
+    fn distribute<const SHARDS: usize, A>(input: Vec<A>) -> [Vec<A>; SHARDS] {
+        let mut r: [_; SHARDS] = std::array::from_fn(|_| Vec::new());
+        r[0] = input;
+        r
+    }
+}
+
+/// After a few hangs the remaining protocol runs of this process are not attempted any more (they are
+/// reported as `timeout …`, which never equals a model answer), so a broken tree fails fast.
+static C05_TIMEOUTS: AtomicUsize = AtomicUsize::new(0);
+
+fn c05_run<F: std::future::Future<Output = String>>(secs: u64, fut: F) -> String {
+    if C05_TIMEOUTS.load(Ordering::SeqCst) >= 3 {
+        return "timeout (not run: three earlier cases hung)".into();
+    }
+    match block_on_timeout(secs, fut) {
+        Ok(s) => s,
+        Err(t) => {
+            C05_TIMEOUTS.fetch_add(1, Ordering::SeqCst);
+            t
+        }
+    }
+}
+
+fn c05_err_kind(e: &crate::error::Error) -> String {
+    let s = format!("{e}");
+    let k = if matches!(e, crate::error::Error::ShuffleValidationFailed(_)) {
+        "shuffle-validation"
+    } else {
+        "other"
+    };
+    canon(&format!("{k}: {}", s.chars().take(60).collect::<String>()))
+}
+
+macro_rules! c05_e2e_impl {
+    ($name:ident, $v:ty) => {
+        async fn $name<const SHARDS: usize, D: Distribute>(malicious: bool, seed: u64, rows: Vec<u128>) -> String {
+            let config = TestWorldConfig::default().with_seed(seed);
+            let world = TestWorld::<WithShards<SHARDS, D>>::with_shards(config);
+            let input: Vec<$v> = rows.iter().map(|&r| <$v>::truncate_from(r)).collect();
+            let results: Vec<[Result<Vec<AdditiveShare<$v>>, crate::error::Error>; 3]> = if malicious {
+                world
+                    .malicious(input.into_iter(), |ctx, shares| async move { ctx.sharded_shuffle(shares).await })
+                    .await
+            } else {
+                world
+                    .semi_honest(input.into_iter(), |ctx, shares| async move { ctx.sharded_shuffle(shares).await })
+                    .await
+            };
+            if results.len() != SHARDS {
+                return format!("err wrong-shard-count {}", results.len());
+            }
+            let mut out: Vec<u128> = vec![];
+            let mut consistent = true;
+            for (s, per_helper) in results.iter().enumerate() {
+                let mut tables: Vec<&Vec<AdditiveShare<$v>>> = vec![];
+                for (h, r) in per_helper.iter().enumerate() {
+                    match r {
+                        Ok(t) => tables.push(t),
+                        Err(e) => return format!("err shard{s}/H{} {}", h + 1, c05_err_kind(e)),
+                    }
+                }
+                let n = tables[0].len();
+                if tables[1].len() != n || tables[2].len() != n {
+                    return format!("err shard{s} lengths {} {} {}", n, tables[1].len(), tables[2].len());
+                }
+                for i in 0..n {
+                    let (a, b, c) = (&tables[0][i], &tables[1][i], &tables[2][i]);
+                    if a.right() != b.left() || b.right() != c.left() || c.right() != a.left() {
+                        consistent = false;
+                    }
+                    out.push((a.left() + a.right() + b.right()).as_u128());
+                }
+            }
+            out.sort_unstable();
+            format!("ok consistent={} rows={}", u8::from(consistent), nat_list(&out))
+        }
+    };
+}
+
+c05_e2e_impl!(c05_e2e_32, BA32);
+c05_e2e_impl!(c05_e2e_64, BA64);
+c05_e2e_impl!(c05_e2e_112, BA112);
+
+macro_rules! c05_dispatch_e2e {
+    ($f:ident, $shards:expr, $dist:expr, $mal:expr, $seed:expr, $rows:expr) => {
+        match ($shards, $dist) {
+            (1, "rr") => c05_run(30, $f::<1, RoundRobinInputDistribution>($mal, $seed, $rows)),
+            (2, "rr") => c05_run(30, $f::<2, RoundRobinInputDistribution>($mal, $seed, $rows)),
+            (3, "rr") => c05_run(30, $f::<3, RoundRobinInputDistribution>($mal, $seed, $rows)),
+            (2, "rnd") => c05_run(30, $f::<2, RandomInputDistribution>($mal, $seed, $rows)),
+            (3, "rnd") => c05_run(30, $f::<3, RandomInputDistribution>($mal, $seed, $rows)),
+            (2, "last") => c05_run(30, $f::<2, C05LastShard>($mal, $seed, $rows)),
+            (3, "last") => c05_run(30, $f::<3, C05LastShard>($mal, $seed, $rows)),
+            (3, "first") => c05_run(30, $f::<3, C05FirstShard>($mal, $seed, $rows)),
+            (s, d) => panic!("harness: unsupported shards/distribution {s}/{d}"),
+        }
+    };
+}
+
+fn c05_exec_e2e(t: &[&str]) -> String {
+    let mal = match t[1] {
+        "sh" => false,
+        "mal" => true,
+        m => panic!("harness: unknown mode {m}"),
+    };
+    let shards: usize = t[3].parse().unwrap();
+    let seed: u64 = t[5].parse().unwrap();
+    let rows: Vec<u128> = parse_nat_list(t[6]);
+    let r = match t[2] {
+        "32" => c05_dispatch_e2e!(c05_e2e_32, shards, t[4], mal, seed, rows),
+        "64" => c05_dispatch_e2e!(c05_e2e_64, shards, t[4], mal, seed, rows),
+        "112" => c05_dispatch_e2e!(c05_e2e_112, shards, t[4], mal, seed, rows),
+        b => panic!("harness: unsupported row width {b}"),
+    };
+    r
+}
+
+fn c05_gf(v: u32) -> Gf32Bit {
+    Gf32Bit::truncate_from(u128::from(v))
+}
+
+macro_rules! c05_tags_impl {
+    ($name:ident, $addname:ident, $v:ty, $vt:ty) => {
+        fn $name(keys: &[u32], rows: &[Vec<u8>], expect: &[u32]) -> String {
+            let mut k: Vec<Gf32Bit> = keys.iter().map(|&x| c05_gf(x)).collect();
+            k.push(Gf32Bit::ONE); // as reveal_keys does
+            let rows: Vec<$vt> = rows
+                .iter()
+                .map(|b| <$vt>::deserialize(GenericArray::from_slice(b)).unwrap())
+                .collect();
+            let h = c05_hash_tags::<AdditiveShare<$v>>(&k, rows);
+            let want = compute_possibly_empty_hash(expect.iter().map(|&x| c05_gf(x)));
+            if h == want { format!("ok {}", nat_list(expect)) } else { "mismatch".into() }
+        }
+
+        async fn $addname(seed: u64, key: u128, rows: Vec<u128>) -> String {
+            let world = TestWorld::new_with(TestWorldConfig::default().with_seed(seed));
+            let records: Vec<$v> = rows.iter().map(|&r| <$v>::truncate_from(r)).collect();
+            let keys = <$v>::truncate_from(key);
+            let rows_and_tags: Vec<$vt> = world
+                .semi_honest((records.into_iter(), keys), |ctx, (row_shares, key_shares)| async move {
+                    let mac_key: Vec<AdditiveShare<Gf32Bit>> =
+                        super::MaliciousShuffleable::to_gf32bit(&key_shares).unwrap().collect::<Vec<_>>();
+                    c05_compute_and_add_tags::<_, AdditiveShare<$v>>(ctx.narrow(&ShardedShuffleStep::GenerateTags), &mac_key, row_shares)
+                        .await
+                        .unwrap()
+                })
+                .await
+                .reconstruct();
+            let hexes: Vec<String> = rows_and_tags
+                .iter()
+                .map(|x| {
+                    let mut buf = GenericArray::default();
+                    x.serialize(&mut buf);
+                    hex(&buf)
+                })
+                .collect();
+            if hexes.is_empty() { "ok -".into() } else { format!("ok {}", hexes.join(",")) }
+        }
+    };
+}
+
+c05_tags_impl!(c05_tags_32, c05_addtags_32, BA32, BA64);
+c05_tags_impl!(c05_tags_64, c05_addtags_64, BA64, BA96);
+c05_tags_impl!(c05_tags_112, c05_addtags_112, BA112, BA144);
+
+fn c05_hex_list(s: &str) -> Vec<Vec<u8>> {
+    if s == "-" {
+        return vec![];
+    }
+    s.split(',').map(unhex).collect()
+}
+
+fn c05_exec_tags(t: &[&str]) -> String {
+    let keys: Vec<u32> = parse_nat_list(t[2]);
+    let rows = c05_hex_list(t[3]);
+    let expect: Vec<u32> = parse_nat_list(t[4]);
+    match t[1] {
+        "32" => c05_tags_32(&keys, &rows, &expect),
+        "64" => c05_tags_64(&keys, &rows, &expect),
+        "112" => c05_tags_112(&keys, &rows, &expect),
+        b => panic!("harness: unsupported row width {b}"),
+    }
+}
+
+fn c05_exec_addtags(t: &[&str]) -> String {
+    let seed: u64 = t[2].parse().unwrap();
+    let key: u128 = t[3].parse().unwrap();
+    let rows: Vec<u128> = parse_nat_list(t[4]);
+    let r = match t[1] {
+        "32" => c05_run(30, c05_addtags_32(seed, key, rows)),
+        "64" => c05_run(30, c05_addtags_64(seed, key, rows)),
+        "112" => c05_run(30, c05_addtags_112(seed, key, rows)),
+        b => panic!("harness: unsupported row width {b}"),
+    };
+    r
+}
+
+fn c05_role(s: &str) -> Role {
+    match s {
+        "H1" => Role::H1,
+        "H2" => Role::H2,
+        "H3" => Role::H3,
+        r => panic!("harness: unknown role {r}"),
+    }
+}
+
+macro_rules! c05_tamper_impl {
+    ($name:ident, $v:ty) => {
+        #[allow(clippy::too_many_arguments)]
+        async fn $name<const SHARDS: usize>(seed: u64, nrows: usize, attacker: Role, gate: String, dest: Role, byte: usize, mask: u8, nth: usize) -> String {
+            let mut rng = Rng(seed ^ 0xC05);
+            let mut config = TestWorldConfig::default().with_seed(seed);
+            let seen = Arc::new(AtomicUsize::new(0));
+            let hits = Arc::new(AtomicUsize::new(0));
+            let (seen2, hits2) = (Arc::clone(&seen), Arc::clone(&hits));
+            config.stream_interceptor = MaliciousHelper::new(attacker, config.role_assignment(), move |ctx, data| {
+                if ctx.gate.as_ref().contains(gate.as_str()) && ctx.dest == dest && !data.is_empty() {
+                    let k = seen2.fetch_add(1, Ordering::SeqCst);
+                    if k == nth {
+                        let i = byte % data.len();
+                        data[i] ^= mask;
+                        hits2.fetch_add(1, Ordering::SeqCst);
+                    }
+                }
+            });
+            let world = TestWorld::<WithShards<SHARDS, RandomInputDistribution>>::with_shards(config);
+            let input: Vec<$v> = (0..nrows).map(|_| <$v>::truncate_from(rng.next_u128())).collect();
+            let mut sorted_in: Vec<u128> = input.iter().map(|x| x.as_u128()).collect();
+            sorted_in.sort_unstable();
+            let results: Vec<[Result<Vec<AdditiveShare<$v>>, crate::error::Error>; 3]> = world
+                .malicious(input.into_iter(), |ctx, shares| async move { ctx.sharded_shuffle(shares).await })
+                .await;
+            let mut honest_err = 0usize;
+            let mut all_ok = true;
+            for per_helper in &results {
+                for (h, r) in per_helper.iter().enumerate() {
+                    if r.is_err() {
+                        all_ok = false;
+                        if Role::all()[h] != attacker {
+                            honest_err += 1;
+                        }
+                    }
+                }
+            }
+            // when nothing was detected the output must be the untouched multiset
+            let mut intact = 2u8; // 2 = not applicable
+            if all_ok {
+                let mut out: Vec<u128> = vec![];
+                for per_helper in &results {
+                    let t: Vec<&Vec<AdditiveShare<$v>>> = per_helper.iter().map(|r| r.as_ref().unwrap()).collect();
+                    if t[0].len() == t[1].len() && t[1].len() == t[2].len() {
+                        for i in 0..t[0].len() {
+                            out.push((t[0][i].left() + t[0][i].right() + t[1][i].right()).as_u128());
+                        }
+                    }
+                }
+                out.sort_unstable();
+                intact = u8::from(out == sorted_in);
+            }
+            let hit = hits.load(Ordering::SeqCst);
+            if hit == 0 {
+                format!("hit=0 detected={} intact={intact}", u8::from(honest_err > 0))
+            } else {
+                format!("hit=1 detected={}", u8::from(honest_err > 0))
+            }
+        }
+    };
+}
+
+c05_tamper_impl!(c05_tamper_32, BA32);
+c05_tamper_impl!(c05_tamper_64, BA64);
+c05_tamper_impl!(c05_tamper_112, BA112);
+
+fn c05_exec_tamper(t: &[&str]) -> String {
+    let shards: usize = t[2].parse().unwrap();
+    let seed: u64 = t[3].parse().unwrap();
+    let nrows: usize = t[4].parse().unwrap();
+    let attacker = c05_role(t[5]);
+    let gate = t[6].to_string();
+    let dest = c05_role(t[7]);
+    let byte: usize = t[8].parse().unwrap();
+    let mask: u8 = t[9].parse().unwrap();
+    let nth: usize = t[10].parse().unwrap();
+    macro_rules! go {
+        ($f:ident) => {
+            match shards {
+                1 => c05_run(45, $f::<1>(seed, nrows, attacker, gate, dest, byte, mask, nth)),
+                2 => c05_run(45, $f::<2>(seed, nrows, attacker, gate, dest, byte, mask, nth)),
+                3 => c05_run(45, $f::<3>(seed, nrows, attacker, gate, dest, byte, mask, nth)),
+                s => panic!("harness: unsupported shard count {s}"),
+            }
+        };
+    }
+    let r = match t[1] {
+        "32" => go!(c05_tamper_32),
+        "64" => go!(c05_tamper_64),
+        "112" => go!(c05_tamper_112),
+        b => panic!("harness: unsupported row width {b}"),
+    };
+    r
+}
+
+pub fn c05_exec(req: &str) -> String {
+    let t: Vec<&str> = req.split(' ').collect();
+    match t[0] {
+        "c05.e2e" => c05_exec_e2e(&t),
+        "c05.tags" => c05_exec_tags(&t),
+        "c05.addtags" => c05_exec_addtags(&t),
+        "c05.tamper" => c05_exec_tamper(&t),
+        _ => panic!("harness: unknown request {req}"),
+    }
+}
+
+// ------------------------------------------------------------------ generators
+
+fn c05_max(bits: u32) -> u128 {
+    (1u128 << bits) - 1
+}
+
+fn c05_rows(rng: &mut Rng, bits: u32, n: usize, style: u64) -> Vec<u128> {
+    (0..n)
+        .map(|i| match style {
+            0 => 0,                               // all rows equal (zero)
+            1 => c05_max(bits),                   // all ones
+            2 => (i as u128 + 1) & c05_max(bits), // distinct small
+            3 => if i % 2 == 0 { 5 } else { rng.next_u128() & c05_max(bits) }, // duplicates
+            _ => rng.next_u128() & c05_max(bits),
+        })
+        .collect()
+}
+
+fn c05_gen_e2e(rng: &mut Rng, thorough: bool) -> Vec<String> {
+    let mut out = vec![];
+    let mut push = |mode: &str, bits: u32, shards: usize, dist: &str, seed: u64, rows: &[u128]| {
+        out.push(format!("c05.e2e {mode} {bits} {shards} {dist} {seed} {}", nat_list(rows)));
+    };
+    // every row count 0..=3*shards for every shard count and distribution (incl. empty shards)
+    for mode in ["sh", "mal"] {
+        for (shards, dists) in [(1usize, &["rr"][..]), (2, &["rr", "rnd", "last"][..]), (3, &["rr", "rnd", "last", "first"][..])] {
+            for dist in dists {
+                for n in 0..=3 * shards {
+                    let bits = [32u32, 64, 112][(n + shards) % 3];
+                    let style = (n as u64 + shards as u64) % 5;
+                    let rows = c05_rows(rng, bits, n, style);
+                    if !thorough && mode == "sh" && n % 2 == 1 && *dist == "rnd" {
+                        continue;
+                    }
+                    push(mode, bits, shards, dist, rng.next_u64(), &rows);
+                }
+            }
+        }
+    }
+    // chunk boundary of the tag computation (TAG_CHUNK = 32) and a few hundred rows
+    for &(bits, shards, dist, n) in &[
+        (32u32, 1usize, "rr", 31usize), (32, 1, "rr", 32), (32, 2, "rnd", 33), (64, 3, "rr", 64), (64, 2, "last", 65),
+        (112, 3, "rnd", 96), (112, 3, "last", 97), (32, 3, "rnd", 300), (64, 2, "rr", 257), (112, 3, "rr", 200),
+    ] {
+        let rows = c05_rows(rng, bits, n, 4);
+        push("mal", bits, shards, dist, rng.next_u64(), &rows);
+        if thorough || n <= 65 || n == 300 {
+            push("sh", bits, shards, dist, rng.next_u64(), &rows);
+        }
+    }
+    for _ in 0..(if thorough { 60 } else { 6 }) {
+        let bits = *rng.pick(&[32u32, 64, 112]);
+        let shards = 1 + rng.usize_below(3);
+        let dist = if shards == 1 { "rr" } else { *rng.pick(&["rr", "rnd", "last"]) };
+        let n = rng.usize_below(if thorough { 500 } else { 120 });
+        let style = rng.below(5);
+        let rows = c05_rows(rng, bits, n, style);
+        push(*rng.pick(&["sh", "mal"]), bits, shards, dist, rng.next_u64(), &rows);
+    }
+    out
+}
+
+fn c05_words(bits: u32) -> usize {
+    (bits as usize).div_ceil(32)
+}
+
+/// Σ keyᵢ·wordᵢ + tag with plain `Gf32Bit` operations on the serialized row‖tag.
+fn c05_val(bits: u32, keys: &[u32], row: &[u8]) -> u32 {
+    let off = (bits as usize).div_ceil(8);
+    let mut padded = row[..off].to_vec();
+    while padded.len() % 4 != 0 {
+        padded.push(0);
+    }
+    let mut acc = <Gf32Bit as SharedValue>::ZERO;
+    for (i, k) in keys.iter().enumerate() {
+        let w = u32::from_le_bytes(padded[4 * i..4 * i + 4].try_into().unwrap());
+        acc += c05_gf(w) * c05_gf(*k);
+    }
+    let tag = u32::from_le_bytes(row[off..off + 4].try_into().unwrap());
+    acc += c05_gf(tag);
+    u32::try_from(acc.as_u128()).unwrap()
+}
+
+fn c05_gen_tags(rng: &mut Rng, thorough: bool) -> Vec<String> {
+    let mut out = vec![];
+    let special: [u32; 10] = [0, 1, 2, 3, 0x8000_0000, 0xffff_ffff, 0x8d, 0x1_0000, 0x7fff_ffff, 0x8000_008d];
+    for bits in [32u32, 64, 112] {
+        let nk = c05_words(bits);
+        let len = (bits as usize).div_ceil(8) + 4;
+        let mut cases: Vec<(Vec<u32>, Vec<Vec<u8>>)> = vec![];
+        cases.push((vec![0; nk], vec![])); // empty table
+        // single rows built from special words / keys
+        for &k in &special {
+            for &w in &special {
+                let keys = vec![k; nk];
+                let mut row = vec![];
+                for j in 0..nk {
+                    row.extend_from_slice(&(if j == 0 { w } else { w.rotate_left(j as u32) }).to_le_bytes());
+                }
+                row.truncate(len - 4);
+                row.extend_from_slice(&(w ^ k).to_le_bytes());
+                if bits == 112 {
+                    // BA112 has no padding bits, nothing to clear
+                }
+                cases.push((keys, vec![row]));
+            }
+        }
+        for _ in 0..(if thorough { 400 } else { 40 }) {
+            let keys: Vec<u32> = (0..nk).map(|_| if rng.below(5) == 0 { *rng.pick(&special) } else { rng.next_u64() as u32 }).collect();
+            let n = rng.usize_below(6);
+            let rows: Vec<Vec<u8>> = (0..n).map(|_| rng.bytes(len)).collect();
+            cases.push((keys, rows));
+        }
+        // a larger table
+        {
+            let keys: Vec<u32> = (0..nk).map(|_| rng.next_u64() as u32).collect();
+            let rows: Vec<Vec<u8>> = (0..70).map(|_| rng.bytes(len)).collect();
+            cases.push((keys, rows));
+        }
+        for (keys, rows) in cases {
+            let expect: Vec<u32> = rows.iter().map(|r| c05_val(bits, &keys, r)).collect();
+            let rows_s = if rows.is_empty() { "-".to_string() } else { rows.iter().map(|r| hex(r)).collect::<Vec<_>>().join(",") };
+            out.push(format!("c05.tags {bits} {} {rows_s} {}", nat_list(&keys), nat_list(&expect)));
+        }
+        // MPC tag generation
+        for &n in &[1usize, 2, 31, 32, 33] {
+            if !thorough && n > 2 && bits != 32 {
+                continue;
+            }
+            let rows = c05_rows(rng, bits, n, 4);
+            out.push(format!("c05.addtags {bits} {} {} {}", rng.next_u64(), rng.next_u128() & c05_max(bits), nat_list(&rows)));
+        }
+        out.push(format!("c05.addtags {bits} {} {} {}", rng.next_u64(), c05_max(bits), nat_list(&[0u128, c05_max(bits), 1])));
+    }
+    out
+}
+
+fn c05_gen_tamper(rng: &mut Rng, thorough: bool) -> Vec<String> {
+    let mut out = vec![];
+    // (attacker, gate, dest): every inter-helper shuffle message
+    let attacks: [(&str, &str, &str); 8] = [
+        ("H1", "transfer_x_y", "H2"),   // x2
+        ("H2", "transfer_x_y", "H3"),   // y1
+        ("H2", "transfer_c", "H3"),     // c1
+        ("H3", "transfer_c", "H2"),     // c2
+        ("H2", "cardinality", "H1"),    // size of C
+        ("H3", "hashes_h3", "H1"),
+        ("H3", "hash_h3", "H2"),
+        ("H2", "hash_h2", "H1"),
+    ];
+    let mut push = |bits: u32, shards: usize, seed: u64, n: usize, a: (&str, &str, &str), byte: usize, mask: u8, nth: usize| {
+        out.push(format!("c05.tamper {bits} {shards} {seed} {n} {} {} {} {byte} {mask} {nth}", a.0, a.1, a.2));
+    };
+    for (j, a) in attacks.iter().enumerate() {
+        for shards in [1usize, 2, 3] {
+            if !thorough && shards == 2 && j % 2 == 1 {
+                continue;
+            }
+            let bits = [32u32, 64, 112][(j + shards) % 3];
+            let n = [40usize, 3, 1, 100][(j + shards) % 4];
+            let is_card = a.1 == "cardinality";
+            let byte = if is_card { 0 } else { rng.usize_below(64) };
+            let mask = if is_card { 1 << rng.below(3) } else { 1u8 << rng.below(8) };
+            push(bits, shards, rng.next_u64(), n, *a, byte, mask, 0);
+        }
+    }
+    // tag bytes vs row bytes, later chunks, empty input (nothing to alter except the cardinality word)
+    for a in &attacks[..4] {
+        push(32, 3, rng.next_u64(), 60, *a, 4, 0x80, 0); // first byte of the tag of the first row (BA64 = row‖tag)
+        push(32, 3, rng.next_u64(), 60, *a, 3, 0x01, 1);
+        push(32, 2, rng.next_u64(), 0, *a, 0, 1, 0);
+    }
+    push(32, 2, rng.next_u64(), 0, attacks[4], 0, 1, 0);
+    push(64, 3, rng.next_u64(), 0, attacks[4], 0, 2, 1);
+    for _ in 0..(if thorough { 60 } else { 6 }) {
+        let a = *rng.pick(&attacks[..4]);
+        let bits = *rng.pick(&[32u32, 64, 112]);
+        push(bits, 1 + rng.usize_below(3), rng.next_u64(), 1 + rng.usize_below(80), a, rng.usize_below(200), 1 << rng.below(8), rng.usize_below(2));
+    }
+    out
+}
+
+#[test]
+fn verif_c05_e2e() {
+    run_suite("c05_e2e", c05_gen_e2e, c05_exec);
+}
+
+#[test]
+fn verif_c05_tags() {
+    run_suite("c05_tags", c05_gen_tags, c05_exec);
+}
+
+#[test]
+fn verif_c05_tamper() {
+    run_suite("c05_tamper", c05_gen_tamper, c05_exec);
+}
